@@ -16,11 +16,16 @@ package utils
 //@   callsite Option
 //@     requires #C10.missing-key-is-an-error len(arg0) == 1 && arg0[0] == "missingkey=error"
 //@     ghost topt = result
+//@   ghostlocal renderErr bool
 //@   callsite Parse
 //@     requires #C10.parses-the-strict-template calls(Option) == 1 && recv == topt
 //@     ghost tparsed = result
+//@     ghost renderErr = renderErr || result#1 != nil
 //@   callsite Execute
 //@     requires #C10.executes-the-strict-template calls(Parse) == 1 && recv == tparsed
+//@     ghost renderErr = renderErr || result != nil
+//@   ensures #C10.template-error-is-returned renderErr ==> result#1 != nil
+//@   ensures #C10.rendered-means-executed result#1 == nil ==> calls(Execute) == 1
 // envPair(k, v): the "k=v" string built by ConvertEnv (fmt.Sprintf is not modelled)
 //@ fun envPair(k string, v string) string
 // ConvertEnv: ASSUMED (map iteration + Sprintf): one pair per entry of the map, nothing else
